@@ -124,6 +124,8 @@ var registry = map[string]func(t *testing.T, c *Collector){
 	"C13": func(t *testing.T, c *Collector) {
 		c.res.Rule = "freed-location ledger on every history of the C04 universe: the multiset of locations that stopped being current must equal the multiset of entries ever appended to the freelist (from the MemFS log) and, after a complete cycle, the multiset presented to the primary GC; non-trivial = at least one location was superseded"
 		runSeqScenarios(c, gcScenarios("C13", c.job.Tier))
+		runConcScenarios(t, c, c13ConcScenarios(c.job.Tier))
+		c.res.Engine = "S + A (ledger oracle on every sequential GC history and on every interleaving of freelist Put / Flush / hand-over scenarios)"
 	},
 	"C04": func(t *testing.T, c *Collector) {
 		c.res.Rule = "every sequence of <= depth ops (Put/Remove/Flush/IndexGC/PrimaryGC[/deadline cuts/Reopen]) after each preamble x configuration; GC ops are identities in the reference map; non-trivial = a GC op mutated the file system in that history"
